@@ -1,5 +1,6 @@
 import WfModel.GenResource
 import WfProofs.ResourceProps
+import WfProofs.ResourceProgress
 /-!
 # C22 — resource injection honors caching and cycle detection under concurrency
 
@@ -134,6 +135,21 @@ theorem C22_outcome_sound (b : Bool) : C22_statement_outcome_sound ⟨true, b⟩
     ⟨fun _ hd => (inv_run_excl ⟨true, b⟩ rfl g acts).finOk t k _ hk hd,
      fun _ hd => (inv_run_excl ⟨true, b⟩ rfl g acts).finOk t k _ hk hd⟩
 
+/-- *Always reported*: every await-free section of a resolution ends -- after
+finitely many micro-steps the running invocation is suspended at an async factory,
+waits for the lock, or has finished with its outcome -- on every graph, cyclic or
+not, from every reachable state (the cycle check cuts each dependency path that
+returns to itself; without it resolution would recurse forever). -/
+theorem C22_resolution_terminates (b : Bool) (g : Graph) (acts : List Act) :
+    ∃ n, (settle ⟨true, b⟩ g n (run ⟨true, b⟩ g acts)).cur = none :=
+  settle_terminates _ (inv_run_excl ⟨true, b⟩ rfl g acts)
+
+/-- a self-cycle behind a dependency: three ticks after the spawn the invocation has
+finished with the cycle error -/
+example : (settle ⟨true, true⟩ [⟨true, false, false, [1]⟩, ⟨false, false, false, [1]⟩] 5
+    (run ⟨true, true⟩ [⟨true, false, false, [1]⟩, ⟨false, false, false, [1]⟩] [.spawn [0] false])).tasks.map (·.phase)
+    = [.done (.cycle [0, 1, 1])] := by decide
+
 /-- **The property, concurrent, for the tree as it is**: all clauses, for every graph
 and every interleaving -- stated for the configuration regenerated from the
 sources, so it only checks while the tree's scopes are exclusive. -/
@@ -163,6 +179,11 @@ theorem C22_sequential (c : Cfg) (g : Graph) (acts : List Act) (hs : serialFrom 
   exact ⟨fun x hc => (h.madeC x hc).1, fun _ _ _ _ _ hc h1 h2 => h.cached_same hc h1 h2,
     fun _ _ _ _ _ hc h1 h2 => h.scoped hc h1 h2, fun t k _ hk hd => h.finOk t k _ hk hd,
     fun _ _ _ hk hd => h.ok_acyclic hk hd⟩
+
+/-- ... and there, too, every await-free section ends. -/
+theorem C22_resolution_terminates_sequential (c : Cfg) (g : Graph) (acts : List Act)
+    (hs : serialFrom c g St.init acts = true) : ∃ n, (settle c g n (run c g acts)).cur = none :=
+  settle_terminates _ (inv_run_serial c g acts hs)
 
 /-- a serial schedule with two invocations, the first suspended at an async factory
 in between -/
